@@ -151,6 +151,11 @@ def oracle_gu(ctx, spec, run_engine=False, via=None):
             ctx.fail("gu:transform-dropped", f"no GaussianTransform emitted although the net matrix differs from 1 by {maxabs(Sref - np.eye(2 * n)):.3g}", rp)
             return None
     else:
+        if via is not None and regs != modes and set(regs) <= set(modes) and S.shape == (2 * len(regs),) * 2:
+            # two compilers in sequence: the first may legitimately drop a mode on which the net action is the
+            # identity (e.g. BSgate(0, 2 pi)); compare on the source's modes with the identity on the dropped ones
+            E, _ = gc.embed(S, [modes.index(m) for m in regs], n)
+            regs, S = modes, E
         if regs != modes:
             ctx.fail("gu:registers", f"GaussianTransform acts on {regs}, the source used modes {modes}", rp)
             return None
